@@ -192,7 +192,7 @@ def run(ctx):
     ctx.model_check("Confidence", "Confidence_mut1.cfg", expect_violation="RollupLevelsOK", note="seeded fault: seen-set before competition")
     ctx.model_check("Confidence", "Confidence_mut2.cfg", expect_violation="PrefixSorted", note="seeded fault: merge emits smallest head")
     r = ctx.model_check("Confidence", "Confidence_cov.cfg", coverage=True, note="action coverage")
-    ctx.require_actions(r, ["WriteChunk", "Glob", "MergeScan", "Finish"])
+    ctx.require_actions(r, ["AddRow", "Begin", "WriteChunk", "Glob", "MergeScan", "Finish"])
     # ---------------- (G) + drive ----------------
     ctx.phase("generation")
     cases = make_cases(ctx, rng)
